@@ -2,6 +2,7 @@ import MpVerif.C02.LemmasTop
 import MpVerif.C02.LemmasTotal
 import MpVerif.C02.LemmasSafe
 import MpVerif.C02.LemmasHeader
+import MpVerif.C02.GenTieStruct
 /-!
 # C02 — property theorems
 
